@@ -19,11 +19,15 @@ Apply(s, e) ==
   ELSE
   LET K  == e.K
       M  == Len(e.pssm)
-      D  == ConvDist(e.pssm, e.bn, K)
+      \* events carrying `sat` (backgrounds whose bd^M leaves 32 bits; queries in the extreme upper tail only) use the
+      \* saturating distribution: numerators exact below the cap e.sat
+      sat == "sat" \in DOMAIN e
+      D  == IF sat THEN ConvDistSat(e.pssm, e.bn, K, e.sat) ELSE ConvDist(e.pssm, e.bn, K)
+      TW(P(_)) == IF sat THEN TailWhereSat(D, P, e.sat) ELSE TailWhere(D, P)
       sc == MemeScale(e.pssm, K, e.G)
       c0 == ((M + 1) \div 2) + 1
-      lo(x) == TailWhere(D, LAMBDA w : (w - x) * sc >= e.G * c0)
-      hi(x) == TailWhere(D, LAMBDA w : (w - x) * sc >= -(e.G * c0))
+      lo(x) == TW(LAMBDA w : (w - x) * sc >= e.G * c0)
+      hi(x) == TW(LAMBDA w : (w - x) * sc >= -(e.G * c0))
       \* inexact (decimal background) numerators were rounded: one unit of slack
       slack(q) == IF e.pv[q][3] = 1 THEN 0 ELSE 1
       badpv == {q \in 1..Len(e.pv) : ~(lo(e.pv[q][1]) - slack(q) <= e.pv[q][2] /\ e.pv[q][2] <= hi(e.pv[q][1]) + slack(q))}
